@@ -24,6 +24,7 @@ import datetime as _dt
 import io
 import math
 import os
+import pathlib
 import re
 import shutil
 import tempfile
@@ -43,10 +44,23 @@ RULE = (
     'only value of a chunk or of a loop; (b) low-level documents of 1-2 blocks with random chunks and '
     'loops (1..50 rows x 1..6 columns; str/int/float64/float32 with and without variances; multi-line '
     'values; comments with hostile content) written through save_cif (buffer and path) or Block.write; '
-    '(c) builder programs = random sequences of with_authors (0..5 persons), with_beamline, '
-    'with_reducers (0..3), with_reduced_powder_data, with_powder_calibration, saved through CIF.save / '
-    'save_cif.  A case is trivial when all its strings are plain alphanumeric; distinct = distinct '
-    '(document kind, way of saving, value/hostility classes present, shape band) signatures'
+    '(c) builder programs = random sequences of 0..8 calls: with_authors (0..5 persons) and with_reducers '
+    '(0..3) any number of times, with_beamline, with_reduced_powder_data (intensity units incl. those scipp '
+    'spells with non-ASCII characters: counts/angstrom, angstrom, us, um, degC, uA*h ...), '
+    'with_powder_calibration at most once (they define fixed tags); repeated items are drawn again from '
+    'what the program already used with probability 0.1-0.4, so that exactly equal reducers, persons, names, '
+    'roles and whole calls with equal arguments occur and are expected in the file as often as supplied; side '
+    'branches (a with_* result that is thrown away) must not show up; saved through CIF.save (buffer, path, '
+    'twice) / save_cif; (d) forced documents, one per class: every public way of supplying a comment or a name '
+    '(constructor keyword, property assignment before and after the object is part of a block / at the end of '
+    'the builder chain, Chunk(None)+item assignment, Block.add(mapping | pairs, comment=), with_*(comment=), '
+    'save_cif(comment=)) with three non-ASCII comments, every intensity unit of the pool on both axes, every '
+    'duplicate pattern (same call, across calls, call repeated, non-adjacent, equal persons / roles / names, '
+    'equal loop rows, equal chunk values), every way of saving a builder.  In (b) the pairs, columns, comments '
+    'and names reach the objects through a randomly chosen one of these ways, a quarter of the columns draw '
+    'their cells from 1..3 values, units of numeric values are drawn from a pool with non-ASCII spellings.  '
+    'A case is trivial when all its strings are plain alphanumeric; distinct = distinct '
+    '(document kind, way of saving, value/hostility classes present, shape band, ways used) signatures'
 )
 ASSUMPTIONS = [
     'the CIF 1.1 grammar as implemented in rv/oracle/cif11.py (strict reading: an unquoted string may '
@@ -55,7 +69,10 @@ ASSUMPTIONS = [
     'half a unit of the last printed digit',
     'strings stay below 200 characters: the 2048-character line limit is not asserted',
     'tags and block names supplied by the workload are themselves legal (no blanks); duplicate tags '
-    'are never supplied',
+    'are never supplied (hence with_beamline / with_reduced_powder_data / with_powder_calibration at most '
+    'once per program); duplicate VALUES are supplied and must all be written',
+    'the text of comments is not compared with what was supplied (the property only asks that comments are '
+    'ASCII and lex to comments only)',
 ]
 TECHNIQUE = ('runtime monitors (sys.monitoring) on _format_value, _write_comment and on every document '
              'written by save_cif / CIF.save / Block.write; independent CIF 1.1 lexer/parser as decoder')
@@ -973,21 +990,22 @@ def gen_scalar(rng, cif):
         return s, ('str', s), 'str:' + string_class(s)
     if r < 0.65:
         n = int(rng.integers(-10**9, 10**9))
-        obj = [n, np.int64(n), sc.scalar(n, unit=None), sc.scalar(n, unit='counts')][int(rng.integers(0, 4))]
+        obj = [n, np.int64(n), sc.scalar(n, unit=None), sc.scalar(n, unit=_unit(rng, ('counts', 'us', 'angstrom')))][
+            int(rng.integers(0, 4))]
         return obj, ('int', n), 'int'
     if r < 0.8:
         x = rand_float(rng)
-        obj = [x, np.float64(x), sc.scalar(x), sc.scalar(x, unit='m')][int(rng.integers(0, 4))]
+        obj = [x, np.float64(x), sc.scalar(x), sc.scalar(x, unit=_unit(rng))][int(rng.integers(0, 4))]
         return obj, ('f64', x), 'f64'
     if r < 0.86:
         x = rand_float(rng, f32=True)
-        obj = [np.float32(x), sc.scalar(x, dtype='float32', unit='s')][int(rng.integers(0, 2))]
+        obj = [np.float32(x), sc.scalar(x, dtype='float32', unit=_unit(rng))][int(rng.integers(0, 2))]
         return obj, ('f32', x), 'f32'
     if r < 0.96:
         f32 = rng.random() < 0.25
         x = rand_float(rng, f32)
         v = rand_var(rng, x, f32)
-        obj = sc.scalar(x, variance=v, unit=['m', 'one', 'us'][int(rng.integers(0, 3))],
+        obj = sc.scalar(x, variance=v, unit=_unit(rng),
                         dtype='float32' if f32 else 'float64')
         return obj, ('fvar', x, v, f32), 'fvar32' if f32 else 'fvar64'
     t = _dt.datetime(int(rng.integers(1990, 2040)), int(rng.integers(1, 13)), int(rng.integers(1, 29)),
@@ -996,28 +1014,136 @@ def gen_scalar(rng, cif):
     return t, ('str', t.isoformat()), 'datetime'
 
 
+def _with_repeats(rng, n, fresh):
+    """``n`` values from ``fresh()``; in a quarter of the columns drawn from a pool of 1..3
+    values, so that exact duplicates (adjacent and not) occur among the supplied values."""
+    if rng.random() < 0.25:
+        pool = [fresh() for _ in range(int(rng.integers(1, 4)))]
+        return [pool[int(i)] for i in rng.integers(0, len(pool), size=n)], n > len(pool)
+    return [fresh() for _ in range(n)], False
+
+
+# units whose scipp spelling is ASCII and units it spells with non-ASCII characters
+VALUE_UNITS = ('m', 'one', 'us', 'angstrom', 'deg', 'degC', 'um', 'counts/angstrom', '1/angstrom**2', 'K')
+
+
+def _unit(rng, pool=VALUE_UNITS):
+    return pool[int(rng.integers(0, len(pool)))]
+
+
 def gen_column(rng, n, multi_line_ok):
     """(sc.Variable, list of expectations, class)."""
     r = rng.random()
     if r < 0.45:
         p = rng.choice([0.0, 0.0, 0.1, 0.5])
-        vals = [any_string(rng, p) for _ in range(n)]
+        vals, dup = _with_repeats(rng, n, lambda: any_string(rng, p))
         if not multi_line_ok:
             vals = [v.replace('\n', ' ') for v in vals]
         cls = sorted({string_class(v) for v in vals})
-        return sc.array(dims=['row'], values=vals), [('str', v) for v in vals], 'str:' + '|'.join(cls)[:60]
+        return (sc.array(dims=['row'], values=vals), [('str', v) for v in vals],
+                ('strdup:' if dup else 'str:') + '|'.join(cls)[:60])
     if r < 0.55:
-        vals = rng.integers(-10**6, 10**6, size=n)
-        return sc.array(dims=['row'], values=vals, unit=None), [('int', int(v)) for v in vals], 'int'
+        vals, dup = _with_repeats(rng, n, lambda: int(rng.integers(-10**6, 10**6)))
+        return (sc.array(dims=['row'], values=vals, unit=None, dtype='int64'),
+                [('int', int(v)) for v in vals], 'intdup' if dup else 'int')
     f32 = rng.random() < 0.3
-    xs = [rand_float(rng, f32) for _ in range(n)]
     dt = 'float32' if f32 else 'float64'
     if r < 0.78:
-        return (sc.array(dims=['row'], values=xs, dtype=dt, unit='m'),
-                [('f32' if f32 else 'f64', x) for x in xs], dt)
-    vs = [rand_var(rng, x, f32) for x in xs]
-    return (sc.array(dims=['row'], values=xs, variances=vs, dtype=dt, unit='one'),
-            [('fvar', x, v, f32) for x, v in zip(xs, vs, strict=True)], 'fvar' + dt[-2:])
+        xs, dup = _with_repeats(rng, n, lambda: rand_float(rng, f32))
+        return (sc.array(dims=['row'], values=xs, dtype=dt, unit=_unit(rng)),
+                [('f32' if f32 else 'f64', x) for x in xs], dt + ('dup' if dup else ''))
+
+    def fresh():
+        x = rand_float(rng, f32)
+        return x, rand_var(rng, x, f32)
+    xv, dup = _with_repeats(rng, n, fresh)
+    xs, vs = [a for a, _ in xv], [b for _, b in xv]
+    return (sc.array(dims=['row'], values=xs, variances=vs, dtype=dt, unit=_unit(rng)),
+            [('fvar', x, v, f32) for x, v in zip(xs, vs, strict=True)], 'fvar' + dt[-2:] + ('dup' if dup else ''))
+
+
+# ---- every public way of putting pairs / columns / comments / names into the objects ----
+CHUNK_WAYS = ('Chunk(dict,comment=)', 'Chunk(pairs,comment=)', 'Chunk.comment=', 'Chunk(None)+setitem',
+              'Chunk.comment=late')
+CHUNK_ADD_WAYS = ('Block.add(mapping,comment=)', 'Block.add(pairs,comment=)')
+LOOP_WAYS = ('Loop(dict,comment=)', 'Loop.comment=', 'Loop+setitem', 'Loop.comment=late')
+BLOCK_COMMENT_WAYS = ('Block(comment=)', 'Block.comment=')
+BLOCK_NAME_WAYS = ('Block(name)', 'Block.name=')
+_PLACEHOLDER_COMMENT = 'placeholder comment that is replaced before saving'
+
+
+def make_chunk(cif, way, pairs, comment):
+    """-> (object for the block, keywords for Block.add, deferred comment assignment)."""
+    pairs = dict(pairs)
+    if way == 'mapping':
+        assert not comment
+        return pairs, {}, None
+    if way == 'Chunk(dict,comment=)':
+        return cif.Chunk(pairs, comment=comment), {}, None
+    if way == 'Chunk(pairs,comment=)':
+        return cif.Chunk(list(pairs.items()), comment=comment), {}, None
+    if way == 'Chunk.comment=':
+        obj = cif.Chunk(pairs)
+        obj.comment = comment
+        return obj, {}, None
+    if way == 'Chunk(None)+setitem':
+        obj = cif.Chunk(None)
+        obj.comment = comment
+        for k, v in pairs.items():
+            obj[k] = v
+        return obj, {}, None
+    if way == 'Chunk.comment=late':
+        return cif.Chunk(pairs, comment=_PLACEHOLDER_COMMENT), {}, comment
+    if way == 'Block.add(mapping,comment=)':
+        return pairs, {'comment': comment}, None
+    if way == 'Block.add(pairs,comment=)':
+        return list(pairs.items()), {'comment': comment}, None
+    raise AssertionError(way)
+
+
+def make_loop(cif, way, cols, comment):
+    cols = dict(cols)
+    if way == 'Loop(dict,comment=)':
+        return cif.Loop(cols, comment=comment), {}, None
+    if way == 'Loop.comment=':
+        obj = cif.Loop(cols)
+        obj.comment = comment
+        return obj, {}, None
+    if way == 'Loop+setitem':
+        keys = list(cols)
+        obj = cif.Loop({keys[0]: cols[keys[0]]})
+        obj.comment = comment
+        for k in keys[1:]:
+            obj[k] = cols[k]
+        return obj, {}, None
+    if way == 'Loop.comment=late':
+        return cif.Loop(cols, comment=_PLACEHOLDER_COMMENT), {}, comment
+    raise AssertionError(way)
+
+
+def make_block(cif, name, name_way, comment, comment_way, entries, n_ctor):
+    """Block from ``entries`` = [(object, add keywords, deferred comment)]: the first ``n_ctor``
+    through the constructor, the others through Block.add; deferred comments are assigned to
+    the objects after they are part of the block."""
+    first = [e[0] for e in entries[:n_ctor]]
+    kw = {'comment': comment} if comment_way == 'Block(comment=)' else {}
+    blk = cif.Block(name if name_way == 'Block(name)' else 'placeholder', first, **kw)
+    if comment_way != 'Block(comment=)':
+        blk.comment = comment
+    for obj, add_kw, _ in entries[n_ctor:]:
+        if add_kw.get('comment') == '' and len(entries) % 2:
+            add_kw = {}
+        blk.add(obj, **add_kw)
+    for obj, _, late in entries:
+        if late is not None:
+            obj.comment = late
+    if name_way != 'Block(name)':
+        blk.name = name
+    return blk
+
+
+def _pick(rng, seq):
+    return seq[int(rng.integers(0, len(seq)))]
 
 
 def gen_lowlevel(rng, cif, tmpdir, k):
@@ -1026,28 +1152,34 @@ def gen_lowlevel(rng, cif, tmpdir, k):
     via = ['save_cif:buffer', 'save_cif:path', 'Block.write'][int(rng.choice(3, p=[0.6, 0.25, 0.15]))]
     if via == 'Block.write':
         nblocks = 1
-    blocks, xblocks, classes = [], [], set()
+    blocks, xblocks, classes, ways = [], [], set(), set()
     big = rng.random() < 0.12
     for _ in range(nblocks):
         used = set()
-        items, xitems = [], []
-        for _ in range(int(rng.integers(1, 5))):
+        entries, xitems, scalars = [], [], []
+        nitems = int(rng.integers(1, 5))
+        n_ctor = int(rng.integers(0, nitems + 1)) if rng.random() < 0.5 else nitems
+        for i in range(nitems):
             comment = hostile_comment(rng) if rng.random() < 0.4 else ''
             if rng.random() < 0.5:
                 pairs, xs = {}, []
                 for _ in range(int(rng.integers(1, 6))):
                     tag = _tag(rng, used)
-                    obj, ev, cls = gen_scalar(rng, cif)
+                    if scalars and rng.random() < 0.2:
+                        obj, ev, cls = _pick(rng, scalars)      # a value equal to an earlier one
+                        classes.add('dup_value')
+                    else:
+                        obj, ev, cls = gen_scalar(rng, cif)
+                        scalars.append((obj, ev, cls))
                     pairs[tag] = obj
                     xs.append(XItem('pair', [tag], [[ev]]))
                     classes.add(cls)
-                r = rng.random()
-                if r < 0.4 and not comment:
-                    items.append(pairs)
-                elif r < 0.7:
-                    items.append(cif.Chunk(pairs, comment=comment))
+                pool = CHUNK_WAYS + (CHUNK_ADD_WAYS if i >= n_ctor else ())
+                if not comment and rng.random() < 0.4:
+                    way = 'mapping'
                 else:
-                    items.append(cif.Chunk(list(pairs.items()), comment=comment))
+                    way = _pick(rng, pool)
+                entries.append(make_chunk(cif, way, pairs, comment))
                 xitems += xs
             else:
                 nrows = int(rng.integers(9, 51)) if big else int(rng.integers(1, 9))
@@ -1061,25 +1193,35 @@ def gen_lowlevel(rng, cif, tmpdir, k):
                     tags.append(tag)
                     evs.append(ev)
                     classes.add(cls.split('|')[0][:40])
-                items.append(cif.Loop(cols, comment=comment))
-                xitems.append(XItem('loop', tags, evs))
+                way = _pick(rng, LOOP_WAYS)
+                entries.append(make_loop(cif, way, cols, comment))
+                xitems.append(XItem('loop', tags, evs, comment=comment))
                 classes.add(f'loop{"L" if nrows > 8 else "S"}x{ncols}')
+            if comment:
+                ways.add(way)
         name = _block_name(rng)
         bcomment = hostile_comment(rng) if rng.random() < 0.3 else ''
-        blocks.append(cif.Block(name, items, comment=bcomment))
+        name_way, bc_way = _pick(rng, BLOCK_NAME_WAYS), _pick(rng, BLOCK_COMMENT_WAYS)
+        blocks.append(make_block(cif, name, name_way, bcomment, bc_way, entries, n_ctor))
         xblocks.append(XBlock(name, xitems, bcomment))
+        ways.add(name_way)
+        if bcomment:
+            ways.add(bc_way)
     top = hostile_comment(rng) if (via != 'Block.write' and rng.random() < 0.4) else ''
     trivial = all(c in ('str:plain', 'int') for c in classes if not c.startswith('loop')) and not top
     x = XDoc('lowlevel', via, xblocks, strict=True, top_comment=top, trivial=trivial,
-             sig=('lowlevel', via, nblocks, tuple(sorted(classes))[:8], bool(top)),
+             sig=('lowlevel', via, nblocks, tuple(sorted(classes))[:8], bool(top), tuple(sorted(ways))[:4]),
              heading=via != 'Block.write')
+    how = float(rng.random())
 
     def act():
         if via == 'Block.write':
             blocks[0].write(io.StringIO())
         else:
             target = io.StringIO() if via.endswith('buffer') else os.path.join(tmpdir, f'd{k}.cif')
-            content = blocks[0] if nblocks == 1 and rng.random() < 0.7 else blocks
+            if isinstance(target, str) and how < 0.5:
+                target = pathlib.Path(target)
+            content = blocks[0] if nblocks == 1 and how < 0.7 else (tuple(blocks) if how < 0.85 else blocks)
             if top:
                 cif.save_cif(target, content, comment=top)
             else:
@@ -1128,122 +1270,174 @@ def _nonempty(rng, p=0.12):
             return s
 
 
-def gen_builder(rng, cif, md, tmpdir, k):
-    name = _block_name(rng) if rng.random() < 0.9 else 'b'
-    top = hostile_comment(rng) if rng.random() < 0.5 else ''
-    ops = []
-    avail = ['authors', 'authors', 'reducers', 'beamline', 'reduced', 'calibration']
-    order = [avail[int(i)] for i in rng.permutation(len(avail))][:int(rng.integers(0, 7))]
-    b = cif.CIF(name, comment=top)
-    people, reducers = [], []
-    content = []          # expected user content in call order
-    classes = set()
-    schemas = {'coreCIF'}
-    for op in order:
-        if op == 'authors':
-            ps = []
-            for _ in range(int(rng.integers(0, 6))):
-                p = {'name': _nonempty(rng), 'corresponding': bool(rng.random() < 0.4),
-                     'role': _nonempty(rng) if rng.random() < 0.5 else None,
-                     'orcid': _orcid(rng) if rng.random() < 0.5 else None,
-                     'email': _email(rng) if rng.random() < 0.5 else None,
-                     'address': _nonempty(rng) if rng.random() < 0.4 else None}
-                ps.append(p)
-            people += ps
-            url = rng.random() < 0.5
-            b = b.with_authors(*[
-                md.Person(name=p['name'], corresponding=p['corresponding'], role=p['role'],
-                          orcid_id=(('https://orcid.org/' if url else '') + p['orcid']) if p['orcid'] else None,
-                          email=p['email'], address=p['address']) for p in ps])
-            classes.add(f'authors{min(len(ps), 3)}')
-        elif op == 'reducers':
-            rs = [_nonempty(rng) for _ in range(int(rng.integers(0, 4)))]
-            reducers += rs
-            b = b.with_reducers(*rs)
-            classes.add(f'reducers{len(rs)}')
-        elif op == 'beamline':
-            fac = [None, 'ESS', 'isis', _nonempty(rng)][int(rng.integers(0, 4))]
-            bname = _nonempty(rng)
-            src = None
-            probes, devices = {'neutron', 'x-ray'}, {'spallation', 'nuclear', 'synch'}
-            if rng.random() < 0.5:
-                kind = int(rng.integers(0, 3))
-                st = [md.SourceType.SpallationNeutronSource, md.SourceType.ReactorNeutronSource,
-                      md.SourceType.SynchrotronXraySource][kind]
-                pr = md.RadiationProbe.Xray if kind == 2 else md.RadiationProbe.Neutron
-                src = md.Source(source_type=st, probe=pr)
-                probes = {['neutron', 'neutron', 'x-ray'][kind]}
-                devices = {['spallation', 'nuclear', 'synch'][kind]}
-            comment = hostile_comment(rng)
-            b = b.with_beamline(md.Beamline(name=bname, facility=fac), src, comment=comment)
-            opt = set() if src is not None else {'diffrn_radiation.probe', 'diffrn_source.device'}
-            for tag, ev in (('diffrn_radiation.probe', ('oneof', probes)),
-                            ('diffrn_source.beamline', ('str', bname)),
-                            ('diffrn_source.facility', ('str', fac) if fac is not None else None),
-                            ('diffrn_source.device', ('oneof', devices))):
-                if ev is not None:
-                    content.append(XItem('pair', [tag], [[ev]], group='auto' if tag in opt else 'user',
-                                         optional={tag} & opt, comment=comment))
-            classes.add('beamline:' + ('src' if src else 'nosrc') + ':' + string_class(bname))
-        elif op == 'reduced':
-            n = int(rng.integers(1, 51)) if rng.random() < 0.2 else int(rng.integers(1, 8))
-            dim = ['tof', 'dspacing'][int(rng.integers(0, 2))]
-            f32 = rng.random() < 0.25
-            dt = 'float32' if f32 else 'float64'
-            cx = [abs(rand_float(rng)) for _ in range(n)]
-            cv = [rand_var(rng, x) for x in cx] if rng.random() < 0.3 else None
-            dx = [rand_float(rng, f32) for _ in range(n)]
-            dv = [rand_var(rng, x, f32) for x in dx] if rng.random() < 0.7 else None
-            unit = ['one', 'counts'][int(rng.integers(0, 2))]
-            dname = ['', 'intensity_net', 'intensity_norm', 'intensity_total'][int(rng.integers(0, 4))]
-            coord = sc.array(dims=[dim], values=cx, variances=cv, unit='us' if dim == 'tof' else 'angstrom')
-            data = sc.array(dims=[dim], values=dx, variances=dv, unit=unit, dtype=dt)
-            da = sc.DataArray(data, coords={dim: coord}, name=dname)
-            comment = hostile_comment(rng)
-            b = b.with_reduced_powder_data(da, comment=comment)
-            ctag = 'pd_meas.time_of_flight' if dim == 'tof' else 'pd_proc.d_spacing'
-            dtag = 'pd_proc.' + (dname or 'intensity_norm')
-            tags = ['pd_data.point_id', ctag]
-            cols = [[('unique',)] * n, [('f64', x) for x in cx]]
-            if cv is not None:
-                tags.append(ctag + '_su')
-                cols.append([('su', v, False) for v in cv])
-            tags.append(dtag)
-            cols.append([('f32' if f32 else 'f64', x) for x in dx])
-            if dv is not None:
-                tags.append(dtag + '_su')
-                cols.append([('su', v, f32) for v in dv])
-            content.append(XItem('loop', tags, cols, group='user', col_order=False, comment=comment))
-            schemas.add('pdCIF')
-            classes.add(f'reduced:{dim}:{dt}:{"su" if dv else "nosu"}:{"csu" if cv else ""}:{unit}')
-        elif op == 'calibration':
-            pool = [0, 1, 2, -1, 3, -2, 4]
-            n = int(rng.integers(1, 6))
-            powers = [pool[int(i)] for i in rng.permutation(len(pool))[:n]]
-            fl = rng.random() < 0.3
-            if fl:
-                powers = [float(p) + (0.5 if rng.random() < 0.3 else 0.0) for p in powers]
-            cx = [rand_float(rng) for _ in range(n)]
-            cv = [rand_var(rng, x) for x in cx] if rng.random() < 0.5 else None
-            cal = sc.DataArray(sc.array(dims=['cal'], values=cx, variances=cv, unit='us'),
-                               coords={'power': sc.array(dims=['cal'], values=powers, unit=None)})
-            comment = hostile_comment(rng)
-            b = b.with_powder_calibration(cal, comment=comment)
-            std = {0: 'ZERO', 1: 'DIFC', 2: 'DIFA', -1: 'DIFB'}
-            tags = ['pd_calib_d_to_tof.id', 'pd_calib_d_to_tof.power', 'pd_calib_d_to_tof.coeff']
-            cols = [[('str', std[p]) if p in std else ('nonblank',) for p in powers],
-                    [('f64', p) if fl else ('int', p) for p in powers],
-                    [('f64', x) for x in cx]]
-            if cv is not None:
-                tags.append('pd_calib_d_to_tof.coeff_su')
-                cols.append([('su', v, False) for v in cv])
-            content.append(XItem('loop', tags, cols, group='user', col_order=False, comment=comment))
-            schemas.add('pdCIF')
-            classes.add(f'calib:{"float" if fl else "int"}:{"su" if cv else "nosu"}')
+# A builder program is plain data: how the builder is created, a list of operations (each a
+# with_* call; 'side' operations are applied to the intermediate builder and their result is thrown
+# away), and how the result is saved.  ``build_program`` performs the calls on the real builder and
+# derives the expected document from the program alone: everything supplied is expected in the
+# file as often as it was supplied and in the order of the calls - equal reducers, equal persons
+# and repeated calls with equal arguments included.
+INTENSITY_UNITS = ('one', 'counts', 'counts/angstrom', '1/angstrom**2', 'angstrom', 'us', 'um', 'degC',
+                   '1/degC', 'uA*h', 'counts/s', 'percent', 'counts/deg', 'K')
+BUILDER_VIAS = ('CIF.save:buffer', 'CIF.save:path', 'save_cif(cif):buffer', 'save_cif(cif,comment):buffer',
+                'CIF.save:twice')
+STD_CALIB_IDS = {0: 'ZERO', 1: 'DIFC', 2: 'DIFA', -1: 'DIFB'}
+
+
+def person(name, corresponding=False, role=None, orcid=None, email=None, address=None):
+    return {'name': name, 'corresponding': corresponding, 'role': role, 'orcid': orcid, 'email': email,
+            'address': address}
+
+
+def unit_text_is_ascii(unit):
+    return unit is None or str(sc.Unit(unit)).isascii()
+
+
+def _apply_op(cif, md, b, op):
+    """Perform one with_* call of a program on the real builder."""
+    kind = op['op']
+    if kind == 'authors':
+        return b.with_authors(*[
+            md.Person(name=p['name'], corresponding=p['corresponding'], role=p['role'],
+                      orcid_id=(('https://orcid.org/' if op.get('url') else '') + p['orcid'])
+                      if p['orcid'] else None, email=p['email'], address=p['address'])
+            for p in op['people']])
+    if kind == 'reducers':
+        return b.with_reducers(*op['items'])
+    if kind == 'beamline':
+        src = None
+        if op['source'] is not None:
+            st = [md.SourceType.SpallationNeutronSource, md.SourceType.ReactorNeutronSource,
+                  md.SourceType.SynchrotronXraySource][op['source']]
+            pr = md.RadiationProbe.Xray if op['source'] == 2 else md.RadiationProbe.Neutron
+            src = md.Source(source_type=st, probe=pr)
+        bl = md.Beamline(name=op['name'], facility=op['facility'])
+        if 'comment' in op:
+            return b.with_beamline(bl, src, comment=op['comment'])
+        return b.with_beamline(bl, src)
+    if kind == 'reduced':
+        dim = op['dim']
+        dt = 'float32' if op['f32'] else 'float64'
+        coord = sc.array(dims=[dim], values=op['cx'], variances=op['cv'],
+                         unit='us' if dim == 'tof' else 'angstrom')
+        data = sc.array(dims=[dim], values=op['dx'], variances=op['dv'], unit=op['unit'], dtype=dt)
+        da = sc.DataArray(data, coords={dim: coord}, name=op['dname'])
+        if 'comment' in op:
+            return b.with_reduced_powder_data(da, comment=op['comment'])
+        return b.with_reduced_powder_data(da)
+    if kind == 'calibration':
+        cal = sc.DataArray(sc.array(dims=['cal'], values=op['cx'], variances=op['cv'], unit='us'),
+                           coords={'power': sc.array(dims=['cal'], values=op['powers'], unit=None)})
+        if 'comment' in op:
+            return b.with_powder_calibration(cal, comment=op['comment'])
+        return b.with_powder_calibration(cal)
+    raise AssertionError(kind)
+
+
+def _expect_op(op, st):
+    """Add what one call supplied to the expected state ``st``."""
+    kind = op['op']
+    classes = st['classes']
+    if kind == 'authors':
+        st['people'] += op['people']
+        classes.add(f'authors{min(len(op["people"]), 3)}')
+    elif kind == 'reducers':
+        st['reducers'] += op['items']
+        classes.add(f'reducers{len(op["items"])}')
+    elif kind == 'beamline':
+        fac, src = op['facility'], op['source']
+        probes, devices = {'neutron', 'x-ray'}, {'spallation', 'nuclear', 'synch'}
+        if src is not None:
+            probes = {['neutron', 'neutron', 'x-ray'][src]}
+            devices = {['spallation', 'nuclear', 'synch'][src]}
+        opt = set() if src is not None else {'diffrn_radiation.probe', 'diffrn_source.device'}
+        for tag, ev in (('diffrn_radiation.probe', ('oneof', probes)),
+                        ('diffrn_source.beamline', ('str', op['name'])),
+                        ('diffrn_source.facility', ('str', fac) if fac is not None else None),
+                        ('diffrn_source.device', ('oneof', devices))):
+            if ev is not None:
+                st['content'].append(XItem('pair', [tag], [[ev]], group='auto' if tag in opt else 'user',
+                                           optional={tag} & opt, comment=op.get('comment', '')))
+        classes.add('beamline:' + ('src' if src is not None else 'nosrc') + ':' + string_class(op['name']))
+    elif kind == 'reduced':
+        n, f32, cv, dv = len(op['cx']), op['f32'], op['cv'], op['dv']
+        ctag = 'pd_meas.time_of_flight' if op['dim'] == 'tof' else 'pd_proc.d_spacing'
+        dtag = 'pd_proc.' + (op['dname'] or 'intensity_norm')
+        tags = ['pd_data.point_id', ctag]
+        cols = [[('unique',)] * n, [('f64', x) for x in op['cx']]]
+        if cv is not None:
+            tags.append(ctag + '_su')
+            cols.append([('su', v, False) for v in cv])
+        tags.append(dtag)
+        cols.append([('f32' if f32 else 'f64', x) for x in op['dx']])
+        if dv is not None:
+            tags.append(dtag + '_su')
+            cols.append([('su', v, f32) for v in dv])
+        st['content'].append(XItem('loop', tags, cols, group='user', col_order=False,
+                                   comment=op.get('comment', '')))
+        st['schemas'].add('pdCIF')
+        classes.add(f'reduced:{op["dim"]}:{"f32" if f32 else "f64"}:{"su" if dv else "nosu"}:'
+                    f'{"csu" if cv else ""}:{op["unit"]}')
+        if not unit_text_is_ascii(op['unit']):
+            st['unit_non_ascii'] = True
+    elif kind == 'calibration':
+        powers, cv = op['powers'], op['cv']
+        fl = any(isinstance(p, float) for p in powers)
+        tags = ['pd_calib_d_to_tof.id', 'pd_calib_d_to_tof.power', 'pd_calib_d_to_tof.coeff']
+        cols = [[('str', STD_CALIB_IDS[p]) if p in STD_CALIB_IDS else ('nonblank',) for p in powers],
+                [('f64', p) if fl else ('int', p) for p in powers],
+                [('f64', x) for x in op['cx']]]
+        if cv is not None:
+            tags.append('pd_calib_d_to_tof.coeff_su')
+            cols.append([('su', v, False) for v in cv])
+        st['content'].append(XItem('loop', tags, cols, group='user', col_order=False,
+                                   comment=op.get('comment', '')))
+        st['schemas'].add('pdCIF')
+        classes.add(f'calib:{"float" if fl else "int"}:{"su" if cv else "nosu"}')
+    else:
+        raise AssertionError(kind)
+
+
+def _has_repeats(seq):
+    seen = []
+    for s in seq:
+        if s in seen:
+            return True
+        seen.append(s)
+    return False
+
+
+def build_program(cif, md, prog, tmpdir, k):
+    """(callable performing the save, XDoc) for a builder program."""
+    name, top = prog['name'], prog.get('top', '')
+    name_way, top_way = prog.get('name_way', 'CIF(name)'), prog.get('top_way', 'CIF(comment=)')
+    kw = {'comment': top} if top_way == 'CIF(comment=)' else {}
+    if name_way == 'CIF(name)':
+        b = cif.CIF(name, **kw)
+    elif name_way == 'CIF(name=)':
+        b = cif.CIF(name=name, **kw)
+    else:
+        b = cif.CIF(**kw)                   # default name, assigned through the property below
+    if top_way == 'CIF.comment=':
+        b.comment = top
+    if name_way == 'CIF.name=':
+        b.name = name
+    st = {'people': [], 'reducers': [], 'content': [], 'schemas': {'coreCIF'}, 'classes': set()}
+    for op in prog['ops']:
+        if op.get('side'):
+            _apply_op(cif, md, b, op)       # a branch that is thrown away: must not change ``b``
+            st['classes'].add('side:' + op['op'])
+            continue
+        b = _apply_op(cif, md, b, op)
+        _expect_op(op, st)
+    if top_way == 'CIF.comment=end':
+        b.comment = top
+    if name_way == 'CIF.name=end':
+        b.name = name
+    people, reducers, classes = st['people'], st['reducers'], st['classes']
     # ---- expected file ----
     items = [XItem('loop', ['audit_conform.dict_name', 'audit_conform.dict_version',
                             'audit_conform.dict_location'],
-                   [[('str', s) for s in sorted(schemas)], [], []], group='auto', special='schema')]
+                   [[('str', s) for s in sorted(st['schemas'])], [], []], group='auto', special='schema')]
     items.append(XItem('pair', ['audit.creation_date'], [[('now',)]], group='auto'))
     items.append(XItem('pair', ['audit.creation_method'], [[('nonblank',)]], group='auto'))
     if len(reducers) == 1:
@@ -1278,24 +1472,236 @@ def gen_builder(rng, cif, md, tmpdir, k):
         items.append(XItem('loop', ['audit_author_role.id', 'audit_author_role.role'],
                            [[('nonblank',)] * n_roles, [('any',)] * n_roles], group='auto',
                            special='roles', col_order=False))
-    items += content
-    via = ['CIF.save:buffer', 'CIF.save:path', 'save_cif(cif):buffer', 'save_cif(cif,comment):buffer'][
-        int(rng.choice(4, p=[0.45, 0.2, 0.2, 0.15]))]
-    top2 = hostile_comment(rng) or 'second comment' if via.startswith('save_cif(cif,comment)') else top
+    items += st['content']
+    via = prog.get('via', 'CIF.save:buffer')
+    top2 = prog.get('top2', 'second comment') if via.startswith('save_cif(cif,comment)') else top
     classes.add(f'people:{min(len(contact), 2)}c{min(len(regular), 2)}r:{"roles" if n_roles else "noroles"}')
+    if _has_repeats(reducers):
+        classes.add('dup:reducers')
+    if _has_repeats(people):
+        classes.add('dup:persons')
+    if _has_repeats([p['role'] for p in people if p['role']]):
+        classes.add('dup:roles')
+    if st.get('unit_non_ascii'):
+        classes.add('unit_non_ascii')
+    if name_way != 'CIF(name)' or top_way != 'CIF(comment=)':
+        classes.add(f'{name_way}|{top_way}')
     x = XDoc('builder', via, [XBlock(name, items)], strict=False, top_comment=top2,
-             sig=('builder', via, tuple(sorted(classes))[:8]), trivial=False,
+             sig=('builder', via, tuple(sorted(classes))[:10]) + tuple(prog.get('sig', ())), trivial=False,
              builder={'contact': contact, 'regular': regular})
 
     def act():
         target = os.path.join(tmpdir, f'b{k}.cif') if via.endswith('path') else io.StringIO()
-        if via.startswith('CIF.save'):
+        if via == 'CIF.save:twice':
+            b.save(io.StringIO())       # ids continue from the builder-wide generator
+            b.save(target)
+        elif via.startswith('CIF.save'):
             b.save(target)
         elif via.startswith('save_cif(cif,comment)'):
             cif.save_cif(target, b, comment=top2)
         else:
             cif.save_cif(target, b)
     return act, x
+
+
+def _again(rng, pool, fresh, p=0.3):
+    """A value for a repeated item: with probability ``p`` exactly one that this program used
+    before (independent random strings never collide), otherwise a new one."""
+    if pool and rng.random() < p:
+        return pool[int(rng.integers(0, len(pool)))]
+    v = fresh()
+    pool.append(v)
+    return v
+
+
+def gen_program(rng):
+    """Random builder program: 0..8 calls; with_authors / with_reducers any number of times,
+    the calls that define fixed tags (beamline, reduced data, calibration) at most once."""
+    prog = {'name': _block_name(rng) if rng.random() < 0.9 else 'b',
+            'top': hostile_comment(rng) if rng.random() < 0.5 else '',
+            'name_way': ['CIF(name)', 'CIF(name)', 'CIF(name=)', 'CIF.name=', 'CIF.name=end'][int(rng.integers(0, 5))],
+            'top_way': ['CIF(comment=)', 'CIF(comment=)', 'CIF.comment=', 'CIF.comment=end'][int(rng.integers(0, 4))]}
+    pools = {k: [] for k in ('name', 'role', 'address', 'email', 'orcid', 'reducer', 'person')}
+    once = {'beamline', 'reduced', 'calibration'}
+    ops = []
+    last = {}
+    for _ in range(int(rng.integers(0, 9))):
+        kind = ['authors', 'authors', 'reducers', 'reducers', 'beamline', 'reduced', 'calibration'][
+            int(rng.integers(0, 7))]
+        if kind in once:
+            if any(o['op'] == kind and not o.get('side') for o in ops):
+                continue
+        if kind in last and kind not in once and rng.random() < 0.15:
+            op = dict(last[kind])           # the same call with equal arguments once more
+        elif kind == 'authors':
+            ps = []
+            for _ in range(int(rng.integers(0, 6))):
+                if pools['person'] and rng.random() < 0.15:
+                    ps.append(dict(_pick(rng, pools['person'])))     # the same person again
+                    continue
+                p = person(
+                    _again(rng, pools['name'], lambda: _nonempty(rng), 0.15),
+                    bool(rng.random() < 0.4),
+                    _again(rng, pools['role'], lambda: _nonempty(rng), 0.4) if rng.random() < 0.5 else None,
+                    _again(rng, pools['orcid'], lambda: _orcid(rng), 0.1) if rng.random() < 0.5 else None,
+                    _again(rng, pools['email'], lambda: _email(rng), 0.1) if rng.random() < 0.5 else None,
+                    _again(rng, pools['address'], lambda: _nonempty(rng), 0.3) if rng.random() < 0.4 else None)
+                pools['person'].append(p)
+                ps.append(p)
+            op = {'op': 'authors', 'people': ps, 'url': bool(rng.random() < 0.5)}
+        elif kind == 'reducers':
+            op = {'op': 'reducers', 'items': [_again(rng, pools['reducer'], lambda: _nonempty(rng))
+                                              for _ in range(int(rng.integers(0, 4)))]}
+        elif kind == 'beamline':
+            op = {'op': 'beamline', 'facility': [None, 'ESS', 'isis', _nonempty(rng)][int(rng.integers(0, 4))],
+                  'name': _nonempty(rng),
+                  'source': int(rng.integers(0, 3)) if rng.random() < 0.5 else None}
+        elif kind == 'reduced':
+            n = int(rng.integers(1, 51)) if rng.random() < 0.2 else int(rng.integers(1, 8))
+            f32 = bool(rng.random() < 0.25)
+            cx, _ = _with_repeats(rng, n, lambda: abs(rand_float(rng)))
+            dx, _ = _with_repeats(rng, n, lambda: rand_float(rng, f32))
+            op = {'op': 'reduced', 'dim': ['tof', 'dspacing'][int(rng.integers(0, 2))], 'f32': f32,
+                  'cx': cx, 'cv': [rand_var(rng, x) for x in cx] if rng.random() < 0.3 else None,
+                  'dx': dx, 'dv': [rand_var(rng, x, f32) for x in dx] if rng.random() < 0.7 else None,
+                  'unit': _unit(rng, INTENSITY_UNITS) if rng.random() < 0.6 else _unit(rng, ('one', 'counts')),
+                  'dname': ['', 'intensity_net', 'intensity_norm', 'intensity_total'][int(rng.integers(0, 4))]}
+        else:
+            pool = [0, 1, 2, -1, 3, -2, 4]
+            n = int(rng.integers(1, 6))
+            powers = [pool[int(i)] for i in rng.permutation(len(pool))[:n]]
+            if rng.random() < 0.3:
+                powers = [float(p) + (0.5 if rng.random() < 0.3 else 0.0) for p in powers]
+            cx, _ = _with_repeats(rng, n, lambda: rand_float(rng))
+            op = {'op': 'calibration', 'powers': powers, 'cx': cx,
+                  'cv': [rand_var(rng, x) for x in cx] if rng.random() < 0.5 else None}
+        if kind in once and 'comment' not in op and rng.random() < 0.85:
+            op['comment'] = hostile_comment(rng)        # else: the keyword is not passed at all
+        last[kind] = op
+        if rng.random() < 0.08:
+            op = dict(op, side=True)
+        ops.append(op)
+    prog['ops'] = ops
+    prog['via'] = BUILDER_VIAS[int(rng.choice(5, p=[0.4, 0.2, 0.15, 0.15, 0.1]))]
+    if prog['via'].startswith('save_cif(cif,comment)'):
+        prog['top2'] = hostile_comment(rng) or 'second comment'
+    return prog
+
+
+def gen_builder(rng, cif, md, tmpdir, k):
+    return build_program(cif, md, gen_program(rng), tmpdir, k)
+
+
+# ---- forced programs and documents: one per class named in requirements() -------------------
+_NA_COMMENTS = ('d-spacing in \xc5, λ = 1.5 \xc5', 'caf\xe9\nsecond line \xb5m at 20 \xb0C', '日本語 # data_x')
+_NA_NAME = 'r\xe9sum\xe9_\xc5'
+
+
+def _reduced_op(unit, dim='dspacing', **kw):
+    return dict({'op': 'reduced', 'dim': dim, 'f32': False, 'cx': [0.8, 1.1, 1.9], 'cv': None,
+                 'dx': [13.6, 26.0, 9.7], 'dv': [0.7, 1.1, 0.5], 'unit': unit, 'dname': ''}, **kw)
+
+
+def forced_programs():
+    """[(forced class, program)]"""
+    a, b_ = 'mantid 6.9', 'scipp 24.11'
+    p1 = person('Jane Doe', True, 'principal investigator', '0000-0002-1825-0097')
+    p2 = person('Max Mustermann', False, 'data curation')
+    out = [
+        ('dup:reducers_same_call', [{'op': 'reducers', 'items': ['prog 1', 'prog 1']}]),
+        ('dup:reducers_across_calls', [{'op': 'reducers', 'items': [a, b_]}, {'op': 'reducers', 'items': [a]}]),
+        ('dup:reducers_call_repeated', [{'op': 'reducers', 'items': [a, b_]}, {'op': 'reducers', 'items': [a, b_]}]),
+        ('dup:reducers_three_equal', [{'op': 'reducers', 'items': [a]}] * 3),
+        ('dup:reducers_non_adjacent', [{'op': 'reducers', 'items': [a, b_, "o'x", a, b_]}]),
+        ('dup:person_same_call', [{'op': 'authors', 'people': [p2, dict(p2)]}]),
+        ('dup:person_across_calls', [{'op': 'authors', 'people': [p1, p2]}, {'op': 'authors', 'people': [p1]},
+                                     {'op': 'authors', 'people': [p2]}]),
+        ('dup:contact_person_twice', [{'op': 'authors', 'people': [p1, dict(p1)]}]),
+        ('dup:roles_equal', [{'op': 'authors', 'people': [person('A B', False, 'formal analysis'),
+                                                         person('C D', False, 'formal analysis'),
+                                                         person('E F', True, 'formal analysis')]}]),
+        ('dup:names_equal', [{'op': 'authors', 'people': [person('A B', False, 'software'),
+                                                         person('A B', False, 'validation'),
+                                                         person('A B', True, None), person('A B', True, 'software')]}]),
+        ('dup:everything_equal_no_roles', [{'op': 'authors', 'people': [person('A B'), person('A B'),
+                                                                       person('A B')]}]),
+        ('side:reducers', [{'op': 'reducers', 'items': [a]}, {'op': 'reducers', 'items': ['side'], 'side': True},
+                           {'op': 'reducers', 'items': [b_]}]),
+        ('side:authors', [{'op': 'authors', 'people': [p1]}, {'op': 'authors', 'people': [p2], 'side': True},
+                          {'op': 'authors', 'people': [dict(p2, name='X Y')]}]),
+        ('side:content', [_reduced_op('counts', side=True), {'op': 'reducers', 'items': [a]}]),
+    ]
+    out = [(n, {'name': 'forced', 'ops': ops}) for n, ops in out]
+    for u in INTENSITY_UNITS:
+        for dim in ('dspacing', 'tof'):
+            out.append((f'intensity_unit:{u}:{dim}',
+                        {'name': 'forced', 'ops': [_reduced_op(u, dim, comment='normalised')]}))
+    out.append(('intensity_unit:counts/angstrom:no_comment',
+                {'name': 'forced', 'ops': [_reduced_op('counts/angstrom')]}))
+    for i, c in enumerate(_NA_COMMENTS):
+        for way in ('CIF(comment=)', 'CIF.comment=', 'CIF.comment=end'):
+            out.append((f'comment_way:{way}:{i}', {'name': 'forced', 'top': c, 'top_way': way,
+                                                   'ops': [{'op': 'reducers', 'items': [a]}]}))
+        out.append((f'comment_way:save_cif(CIF,comment=):{i}',
+                    {'name': 'forced', 'top': 'first', 'top2': c, 'via': 'save_cif(cif,comment):buffer', 'ops': []}))
+        out.append((f'comment_way:with_beamline(comment=):{i}',
+                    {'name': 'forced', 'ops': [{'op': 'beamline', 'facility': 'ESS', 'name': 'DREAM',
+                                                'source': None, 'comment': c}]}))
+        out.append((f'comment_way:with_reduced_powder_data(comment=):{i}',
+                    {'name': 'forced', 'ops': [_reduced_op('counts/angstrom', comment=c)]}))
+        out.append((f'comment_way:with_powder_calibration(comment=):{i}',
+                    {'name': 'forced', 'ops': [{'op': 'calibration', 'powers': [0, 1], 'cx': [3.4, 0.2],
+                                                'cv': None, 'comment': c}]}))
+    for way in ('CIF(name)', 'CIF(name=)', 'CIF.name=', 'CIF.name=end'):
+        out.append((f'name_way:{way}', {'name': _NA_NAME, 'name_way': way,
+                                        'ops': [{'op': 'reducers', 'items': [a]}]}))
+    for via in BUILDER_VIAS:
+        out.append((f'save_way:{via}', {'name': 'forced', 'via': via, 'top': 'top', 'ops': [
+            {'op': 'authors', 'people': [p1, p2]}, {'op': 'reducers', 'items': [a, a]}]}))
+    return out
+
+
+def forced_lowlevel():
+    """[(forced class, chunk way | None, loop way | None, block comment way, block name way, comment index)]
+    for every public way of attaching a comment / a name to Chunk, Loop and Block."""
+    out = []
+    for i in range(len(_NA_COMMENTS)):
+        for w in CHUNK_WAYS + CHUNK_ADD_WAYS:
+            out.append((f'comment_way:{w}:{i}', w, None, None, 'Block(name)', i))
+        for w in LOOP_WAYS:
+            out.append((f'comment_way:{w}:{i}', None, w, None, 'Block(name)', i))
+        for w in BLOCK_COMMENT_WAYS:
+            out.append((f'comment_way:{w}:{i}', None, None, w, 'Block(name)', i))
+    for w in BLOCK_NAME_WAYS:
+        out.append((f'name_way:{w}', None, None, None, w, 0))
+    out.append(('dup:loop_rows_equal', None, None, None, 'Block(name)', 0))
+    out.append(('dup:chunk_values_equal', None, None, None, 'Block(name)', 0))
+    return out
+
+
+def gen_forced_lowlevel(cif, spec):
+    cls, cway, lway, bway, nway, i = spec
+    c = _NA_COMMENTS[i]
+    name = _NA_NAME if cls.startswith('name_way') else 'forced'
+    pairs = {'t.a': 'x', 't.b': sc.scalar(1.5, unit='angstrom')}
+    vals = ['p', 'q', 'p']
+    if cls == 'dup:loop_rows_equal':
+        vals = ['same row', 'same row', 'same row']
+    if cls == 'dup:chunk_values_equal':
+        pairs = {'t.a': 'same', 't.b': 'same', 't.c': 'same'}
+    cols = {'l.s': sc.array(dims=['r'], values=vals),
+            'l.x': sc.array(dims=['r'], values=[1.0, 1.0, 1.0] if cls.startswith('dup') else [1.0, 2.5, 1.0],
+                            unit='angstrom')}
+    entries = [make_chunk(cif, cway or 'Chunk(dict,comment=)', pairs, c if cway else ''),
+               make_loop(cif, lway or 'Loop(dict,comment=)', cols, c if lway else '')]
+    blk = make_block(cif, name, nway, c if bway else '', bway or 'Block(comment=)', entries,
+                     0 if cway in CHUNK_ADD_WAYS else 1)
+    xitems = [XItem('pair', [t], [[model_of(v)]]) for t, v in pairs.items()]
+    xitems.append(XItem('loop', list(cols), [[('str', v) for v in vals],
+                                             [('f64', float(v)) for v in cols['l.x'].values]]))
+    x = XDoc('lowlevel', 'save_cif:buffer', [XBlock(name, xitems, c if bway else '')], strict=True,
+             sig=('lowlevel', 'forced', cls))
+    return (lambda: cif.save_cif(io.StringIO(), blk)), x
 
 
 # ======================================================================
@@ -1319,7 +1725,8 @@ def requirements(tier):
                    '_encode_non_ascii': 20000, 'Chunk.write': 1000, 'Loop.write': 1000,
                    '_serialize_authors': 200, '_serialize_roles': 100, 'CIF.save': 300},
         'forced': ['str:' + n for n, _ in FORCED] + ['empty_block_name', 'file_comment_non_ascii',
-                                                      'loop_50_rows', 'loop_6_columns'],
+                                                      'loop_50_rows', 'loop_6_columns']
+        + [n for n, _ in forced_programs()] + [s[0] for s in forced_lowlevel()],
     }
 
 
@@ -1369,7 +1776,7 @@ def run(shard, ctx):
         finally:
             mon.end()
         ctx.case(x.sig, trivial=x.trivial)
-        if n_samples < 2 and x.kind != 'atom' and ctx.n_violations == before:
+        if n_samples < 2 and x.kind != 'atom' and 'forced' not in x.sig and ctx.n_violations == before:
             ctx.sample(x.describe())
             n_samples += 1
 
@@ -1409,6 +1816,17 @@ def run(shard, ctx):
                 execute(lambda: cif.save_cif(io.StringIO(), cif.Block('big', [cif.Loop(cols)])), x)
                 ctx.hit('loop_50_rows')
                 ctx.hit('loop_6_columns')
+            # every public way of supplying comments / names, exact duplicates among repeated
+            # items, intensity units that render with non-ASCII characters: one document each
+            of = shard.get('of', N_SHARDS)
+            for i, (fname, prog) in enumerate(forced_programs()):
+                if (i + seed) % of == index % of:
+                    execute(*build_program(cif, md, dict(prog, sig=('forced', fname)), tmpdir, f'f{i}'))
+                    ctx.hit(fname)
+            for i, spec in enumerate(forced_lowlevel()):
+                if (i + 7 + seed) % of == index % of:
+                    execute(*gen_forced_lowlevel(cif, spec))
+                    ctx.hit(spec[0])
             # (b) + (c) random documents
             for k in range(int(shard['docs'])):
                 try:
